@@ -610,6 +610,9 @@ func c14InitialModel(cl *fakecluster.Cluster, c *c14Case) (*c14Model, int) {
 // c14ParseHook is the in-process refresh-step executor (c14_parse_test.go, build tag verif).
 var c14ParseHook func(c *c14Case) ([]Discrepancy, []string)
 
+// c14TableHook replays the long-lived node-table check (same file).
+var c14TableHook func(rounds, seed int) []Discrepancy
+
 func c14Exec(c *c14Case) ([]Discrepancy, []string) {
 	var trace []string
 	cl, err := fakecluster.New(c14Nodes)
@@ -805,8 +808,16 @@ func c14Classify(c *c14Case) (bool, []string) {
 func init() {
 	registerReplay("C14", func(raw json.RawMessage) ([]Discrepancy, error) {
 		var pc struct {
-			Level string  `json:"level"`
-			Case  c14Case `json:"case"`
+			Level  string  `json:"level"`
+			Case   c14Case `json:"case"`
+			Rounds int     `json:"rounds"`
+			Seed   int     `json:"seed"`
+		}
+		if err := json.Unmarshal(raw, &pc); err == nil && pc.Level == "node-table" {
+			if c14TableHook == nil {
+				harnessProblem("this case replays the refresh step in-process: build the harness with -tags verif")
+			}
+			return c14TableHook(pc.Rounds, pc.Seed), nil
 		}
 		if err := json.Unmarshal(raw, &pc); err == nil && pc.Level != "" {
 			if c14ParseHook == nil {
